@@ -20,19 +20,19 @@ def getMaxH : Sexp → Option (Option Rat)
   | .atom "none" => some none
   | x => do some (some (← x.asRat?))
 
-mutual
-  partial def getBox : Sexp → Option Box
-    | .list [.atom "b", .list [ml, mr, mt, mb, pl, pr, pt, pb], .list [bl, br, bt, bb],
-             .list [w, minW, maxW, h], minH, maxH, sz, .list cs] => do
-      let s : Style := {
-        ml := ← getDim ml, mr := ← getDim mr, mt := ← getDim mt, mb := ← getDim mb,
-        pl := ← getDim pl, pr := ← getDim pr, pt := ← getDim pt, pb := ← getDim pb,
-        bl := ← bl.asRat?, br := ← br.asRat?, bt := ← bt.asRat?, bb := ← bb.asRat?,
-        width := ← getDim w, minW := ← getDim minW, maxW := ← getDim maxW, height := ← getDim h,
-        minH := ← minH.asRat?, maxH := ← getMaxH maxH, sizing := ← getSizing sz }
-      some (.mk s (← cs.mapM getBox))
-    | _ => none
-end
+/-- fuel = maximal nesting depth accepted on the wire -/
+def getBox : Nat → Sexp → Option Box
+  | 0, _ => none
+  | fuel + 1, .list [.atom "b", .list [ml, mr, mt, mb, pl, pr, pt, pb], .list [bl, br, bt, bb],
+           .list [w, minW, maxW, h], minH, maxH, sz, .list cs] => do
+    let s : Style := {
+      ml := ← getDim ml, mr := ← getDim mr, mt := ← getDim mt, mb := ← getDim mb,
+      pl := ← getDim pl, pr := ← getDim pr, pt := ← getDim pt, pb := ← getDim pb,
+      bl := ← bl.asRat?, br := ← br.asRat?, bt := ← bt.asRat?, bb := ← bb.asRat?,
+      width := ← getDim w, minW := ← getDim minW, maxW := ← getDim maxW, height := ← getDim h,
+      minH := ← minH.asRat?, maxH := ← getMaxH maxH, sizing := ← getSizing sz }
+    some (.mk s (← cs.mapM (getBox fuel)))
+  | _, _ => none
 
 def putLBox (b : LBox) : Sexp :=
   .list ([b.x, b.y, b.w, b.h, b.mt, b.mr, b.mb, b.ml, b.pt, b.pr, b.pb, b.pl, b.bt, b.br, b.bb, b.bl].map ofRat)
@@ -52,12 +52,12 @@ def putViol (v : Viol) : Sexp := .list [.atom v.rule, ofNat v.index, .str v.deta
 def handle (req : Sexp) : Sexp :=
   let r : Option Sexp := match req with
     | .list [.atom "layout", w, h, b] => do
-      let t := layoutDoc (← w.asRat?) (← h.asRat?) (← getBox b)
+      let t := layoutDoc (← w.asRat?) (← h.asRat?) (← getBox 64 b)
       some (ok [.list (t.flatten.map putLBox)])
     -- judge the specification on the implementation's numbers (preorder list of boxes)
     | .list [.atom "judge", w, h, b, .list impl] => do
       let bs ← impl.mapM getLBox
-      let box ← getBox b
+      let box ← getBox 64 b
       match judgeDoc (← w.asRat?) (← h.asRat?) box bs with
       | none => some (.list [.atom "shape-mismatch"])
       | some vs => some (ok (vs.map putViol))
